@@ -63,3 +63,70 @@ Section Confined.
     eapply route_map_forall; [|exact H]. apply Forall_forall. intros x _ a Ha. eapply route_confined. exact Ha.
   Qed.
 End Confined.
+
+(* ---------- no needless hop ---------- *)
+Section SingleHop.
+  Variables (urls : urlmap) (ft : ftypes) (frags : list fragdef) (L : string).
+
+  (* the field of this entry is offered by L (and is not one of the gateway's own) *)
+  Definition offered_at (r : routed) : Prop :=
+    forall possible, url_for urls (r_tcond r) (r_name r) = Ok possible -> In L possible /\ ~ In internal_loc possible.
+
+  Lemma chooser_stays possible : In L possible -> ~ In internal_loc possible -> selectLocation [] possible L = L.
+  Proof.
+    intros HL Hni. unfold selectLocation. destruct possible as [|x [|y r]]; [destruct HL| |].
+    - destruct HL as [<-|[]]. reflexivity.
+    - set (ps := x :: y :: r) in *.
+      destruct (str_mem internal_loc ps) eqn:Ei; [apply str_mem_In in Ei; contradiction|].
+      cbn [app]. rewrite fp_two. apply str_mem_In in HL. rewrite HL. reflexivity.
+  Qed.
+
+  Lemma route_map_forall2 (P Q : routed -> Prop) (f : sel -> res (list routed)) : forall l r,
+    Forall (fun x => forall a, f x = Ok a -> Forall Q a -> Forall P a) l ->
+    route_map f l = Ok r -> Forall Q r -> Forall P r.
+  Proof.
+    induction l as [|x t IH]; intros r HF H HQ; simpl in H.
+    - injection H as <-. constructor.
+    - inversion HF as [|? ? Hx Ht]; subst.
+      apply bind_ok_inv in H. destruct H as [a [Ha H]]. apply bind_ok_inv in H. destruct H as [b [Hb H]].
+      injection H as <-. apply Forall_app in HQ. destruct HQ as [HQa HQb].
+      apply Forall_app. split; [apply (Hx a Ha HQa)|apply (IH b Ht Hb HQb)].
+  Qed.
+
+  (* with no priorities configured, a selection whose every field is offered by the location it
+     starts at is planned entirely at that location: one step, one request *)
+  Lemma route_single_hop : forall fuel ptype path s l,
+    route fuel [] urls ft frags ptype L path s = Ok l -> Forall offered_at l -> Forall (fun r => r_loc r = L) l.
+  Proof.
+    induction fuel as [|fuel IHf]; intros ptype path s l H; [discriminate|].
+    revert ptype path l H.
+    induction s as [alias name args dirs sub IH | tcond dirs sub IH | name dirs] using sel_ind';
+      intros ptype path l H HO; cbn [route] in H.
+    - apply bind_ok_inv in H. destruct H as [possible [Hu H]].
+      assert (Hloc: forall rest, Forall offered_at
+                ({| r_path := path ++ [rkey alias name]; r_name := name; r_tcond := ptype;
+                    r_loc := selectLocation [] possible L |} :: rest) -> selectLocation [] possible L = L).
+      { intros rest HF. inversion HF as [|? ? Hh _]; subst. destruct (Hh possible Hu) as [A B].
+        apply chooser_stays; assumption. }
+      destruct sub as [|s0 sub'].
+      + injection H as <-. constructor; [apply (Hloc [] HO)|constructor].
+      + destruct (assoc (url_key ptype name) ft) as [t|]; [|discriminate].
+        apply bind_ok_inv in H. destruct H as [below [Hb H]]. injection H as <-.
+        pose proof (Hloc below HO) as E. constructor; [exact E|].
+        rewrite E in Hb. inversion HO as [|? ? _ HOb]; subst.
+        eapply route_map_forall2; [|exact Hb|exact HOb].
+        eapply Forall_impl; [|exact IH]. intros x Hx a Ha HQ. eapply Hx; eassumption.
+    - eapply route_map_forall2; [|exact H|exact HO].
+      eapply Forall_impl; [|exact IH]. intros x Hx a Ha HQ. eapply Hx; eassumption.
+    - destruct (frag_for name frags) as [f|]; [|discriminate].
+      eapply route_map_forall2; [|exact H|exact HO].
+      apply Forall_forall. intros x _ a Ha HQ. eapply IHf; eassumption.
+  Qed.
+
+  Theorem route_sels_single_hop : forall fuel ptype path sels l,
+    route_sels fuel [] urls ft frags ptype L path sels = Ok l -> Forall offered_at l -> Forall (fun r => r_loc r = L) l.
+  Proof.
+    intros fuel ptype path sels l H HO. unfold route_sels in H.
+    eapply route_map_forall2; [|exact H|exact HO]. apply Forall_forall. intros x _ a Ha HQ. eapply route_single_hop; eassumption.
+  Qed.
+End SingleHop.
